@@ -524,6 +524,98 @@ class Gen:
         lines.append(f"run {run}")
         return lines
 
+    # ------------------------------------------------------------------ directed semaphore shapes (profile flag "semshape")
+    def program_semshape(self, name, run):
+        """one BatchSemaphore (fair or unfair, 0–2 permits), two `Acquire` slots shared by all bodies: acquisitions are
+        created by one task, polled / awaited / dropped by another, interleaved with release, close, try_acquire and
+        availability probes; small enough for (almost) exhaustive exploration"""
+        r = self.r
+        fair = r.choice(["fair", "unfair"])
+        permits = r.choice([0, 1, 1, 2])
+        nt = 3 + (1 if r.chance(1, 3) else 0)
+        is_fut = [False] + [r.chance(1, 2) for _ in range(1, nt)]
+        bodies = [[] for _ in range(nt)]
+
+        def aw(k, x):
+            return x if is_fut[k] else "block_on " + x
+
+        def seq(k):
+            n = r.choice([1, 1, 2, 2, 3])
+            h = r.below(2)
+            c = r.below(24)
+            if c < 3:
+                return [f"acq_new {h} s0 {n}", f"acq_poll {h}"]                       # queued (or granted), left in the table
+            if c < 5:
+                return [f"acq_new {h} s0 {n}"]
+            if c < 9:
+                return [f"acq_poll {h}"]                                               # re-poll: maybe someone else's
+            if c < 11:
+                return [aw(k, f"acq_await {h}")]
+            if c < 14:
+                return [f"acq_drop {h}"]
+            if c < 18:
+                return [f"release s0 {r.choice([1, 1, 2])}"]
+            if c < 20:
+                return ["close s0"]
+            if c < 22:
+                return [f"try_acquire s0 {n}"]
+            if c < 23:
+                return [f"acquire s0 {n}"]
+            return ["avail s0"]
+
+        # most programs follow one of a few stories (the op lists of up to three bodies), perturbed by random extras
+        n1, n2 = r.choice([1, 1, 2, 2, 3]), r.choice([1, 1, 2])
+        h = r.below(2)
+        stories = [
+            # an acquisition is queued, granted by a release, the semaphore is closed, the acquisition is dropped unpolled
+            [[f"acq_new {h} s0 {n1}", f"acq_poll {h}"], [f"release s0 {n1}", "close s0"], [f"acq_drop {h}", "avail s0"]],
+            [[f"acq_new {h} s0 {n1}", f"acq_poll {h}", f"acq_drop {h}", "avail s0"], [f"release s0 {n1}"], ["close s0", "avail s0"]],
+            # an acquisition created and polled by one task is re-polled / awaited by another; the first one ends
+            [[f"acq_new {h} s0 {n1}", f"acq_poll {h}"], [f"acq_poll {h}", "AWAIT"], [f"release s0 {n1}", "avail s0"]],
+            [[f"acq_new {h} s0 {n1}", f"acq_poll {h}"], ["AWAIT", f"release s0 {n1}"], [f"release s0 {n2}", f"release s0 {n1}"]],
+            # fairness: a large request waits at the head; smaller requests and try_acquire arrive
+            [[f"acquire s0 {n1 + 1}", "avail s0"], [f"try_acquire s0 {n2}", "avail s0"], [f"release s0 {n2}", f"release s0 {n1}"]],
+            [[f"acq_new {h} s0 {n1 + 1}", f"acq_poll {h}", "AWAIT"], [f"acquire s0 {n2}", f"release s0 {n2}"], [f"release s0 {n1}", f"try_acquire s0 {n2}"]],
+            # close racing queued and later acquisitions
+            [[f"acq_new {h} s0 {n1}", "AWAIT"], ["close s0", f"release s0 {n1}"], [f"try_acquire s0 {n2}", f"acquire s0 {n2}"]],
+        ]
+        if r.chance(5, 6):
+            si = r.below(len(stories))
+            st = stories[si]
+            # the story's precondition: the first acquisition has to queue (too few permits), mostly
+            if r.chance(4, 5):
+                permits = r.below(n1) if si != 4 else r.below(n1 + 1)
+            if si in (0, 1) and r.chance(2, 3):
+                fair = "fair"
+            order = [1, 2, 3][:nt - 1]
+            if r.chance(1, 2):
+                order.reverse()
+            for role, k in zip(st, order):
+                bodies[k] = [aw(k, f"acq_await {h}") if o == "AWAIT" else o for o in role]
+            if nt - 1 < len(st):
+                bodies[0] += [aw(0, f"acq_await {h}") if o == "AWAIT" else o for o in st[-1]]
+            for k in range(nt):
+                if r.chance(1, 3):
+                    bodies[k].insert(r.below(len(bodies[k]) + 1), seq(k)[0])
+        else:
+            for k in range(nt):
+                for _ in range(1 + r.below(3)):
+                    bodies[k] += seq(k)
+                if r.chance(1, 3):
+                    bodies[k].append("avail s0")
+        main = bodies[0]
+        for k in range(1, nt):
+            main.insert(r.below(len(main) + 1) if r.chance(1, 3) else 0, f"{'fspawn' if is_fut[k] else 'spawn'} {k}")
+        if r.chance(1, 2):
+            main.append("avail s0")
+        lines = [f"=== {name}", "config steps=none clocks=1", f"obj s0 sem {permits} {fair}"]
+        for k, b in enumerate(bodies):
+            lines.append(f"task {k} {'future' if is_fut[k] else 'thread'}")
+            lines += ["  " + o for o in b]
+            lines.append("end")
+        lines.append(f"run {run}")
+        return lines
+
     # ------------------------------------------------------------------ async layer (profiles with "async")
     def async_leaf(self, objs, k, nt, fut):
         """one awaitable: the tokens of an async op"""
@@ -721,6 +813,7 @@ PROFILES = {
              "weights": {"send": 5, "recv": 4, "atomic": 1, "yield": 1},
              "min_tasks": 1, "extra_tasks": 2, "min_ops": 1, "extra_ops": 3},
     "chan_shape": {"chanshape": True, "dfs_iters": 1500, "objs": {}},
+    "sem_shape": {"semshape": True, "dfs_iters": 1200, "objs": {}},
     "poison_shape": {"poisonshape": True, "replicate": 8, "objs": {}},
     "chan_dl": {"objs": {"chan": (1, 2), "mutex": (0, 1)}, "dl": True, "parent0": (9, 10),
                 "weights": {"send": 4, "recv": 5, "lock": 1, "yield": 1, "panic": 1},
@@ -789,7 +882,7 @@ def batch(seed, profile, count, prefix, kinds=("random", "pct", "rr", "dfs")):
     g = Gen(rng, PROFILES[profile] if isinstance(profile, str) else profile)
     lines = []
     for i in range(count):
-        fn = g.program_poisonshape if g.p.get("poisonshape") else g.program_chanshape if g.p.get("chanshape") else (g.program_async if g.p.get("async") else g.program)
+        fn = g.program_semshape if g.p.get("semshape") else g.program_poisonshape if g.p.get("poisonshape") else g.program_chanshape if g.p.get("chanshape") else (g.program_async if g.p.get("async") else g.program)
         # directed shapes are small: explore their schedule trees (almost) exhaustively
         if g.p.get("replicate"):
             # every execution of these programs fails, and a run stops at its first failure: one schedule per run,
